@@ -80,7 +80,28 @@ Section Cls.
     destruct (String.prefix "charts/" (f_name f)); [|reflexivity].
     destruct (String.eqb (path_ext (f_name f)) ".prov" && negb (contains_char slash (substring 7 (String.length (f_name f) - 7) (f_name f)))); reflexivity.
   Qed.
+
+  (* Chart.lock and requirements.lock in one file list: the one that comes later decides the lock *)
+  Lemma lock_last_wins st f g la lb :
+    cls f = KChartLock -> cls g = KReqLock ->
+    lock_dec (f_data f) = Some la -> lock_dec (f_data g) = Some lb ->
+    (exists st', load_loop md_merge lock_dec parse_values st [f; g] = inr st' /\ ls_lock st' = lb) /\
+    (exists st', load_loop md_merge lock_dec parse_values st [g; f] = inr st' /\ ls_lock st' = la).
+  Proof.
+    intros Hf Hg Ha Hb. destruct st as [om lk vs sch tpl fls sub]. split; cbn [load_loop].
+    - rewrite lstep_by_cls, Hf, Ha, lstep_by_cls, Hg, Hb. eexists. split; reflexivity.
+    - rewrite lstep_by_cls, Hg, Hb, lstep_by_cls, Hf, Ha. eexists. split; reflexivity.
+  Qed.
 End Cls.
+
+Lemma lock_last_wins_names md_merge lock_dec parse_values (st : lstate) (f g : file) (la lb : option lockv) :
+  f_name f = "Chart.lock" -> f_name g = "requirements.lock" ->
+  lock_dec (f_data f) = Some la -> lock_dec (f_data g) = Some lb ->
+  (exists st', load_loop md_merge lock_dec parse_values st [f; g] = inr st' /\ ls_lock st' = lb) /\
+  (exists st', load_loop md_merge lock_dec parse_values st [g; f] = inr st' /\ ls_lock st' = la).
+Proof.
+  intros Hf Hg. apply lock_last_wins; unfold cls; [rewrite Hf|rewrite Hg]; reflexivity.
+Qed.
 
 (* ---------- writes into a fresh directory ---------- *)
 (* [n] can be created next to the paths [seen]: no NUL, no path of [seen] is n, a parent of n, or below n *)
